@@ -98,12 +98,15 @@ Lemma other_step_keeps s a s' c x :
              measure x' = measure x /\ c_closeall x' = c_closeall x /\ c_pc x' = c_pc x.
 Proof.
   intros H Hc Hx.
-  destruct a as [c0 k sd ca|c0|c0 i|c0 i|c0|c0|ok| | | | |c0 good|i|i| |];
+  destruct a as [c0 k sd ca sf|c0 i|c0|c0|c0 i|c0 i|c0|c0|ok| | | | |c0 good|i|i| |];
     cbn [is_caller_step] in Hc; cbn [Shutdown.step] in H.
   - (* ANew *)
     destruct (getc c0 (callers s)) eqn:E; [discriminate|]. injection H as <-.
     exists x. cbn [callers set_caller].
     rewrite getc_setc_other; [repeat split; assumption|]. intros ->. congruence.
+  - apply N.eqb_neq in Hc. break_step H; exists x; cbn [callers set_caller];
+      rewrite getc_setc_other by congruence; repeat split; assumption.
+  - break_step H; exists x; cbn [callers]; repeat split; assumption.
   - apply N.eqb_neq in Hc. break_step H; exists x; cbn [callers set_caller];
       rewrite getc_setc_other by congruence; repeat split; assumption.
   - apply N.eqb_neq in Hc. break_step H; exists x; cbn [callers set_caller];
@@ -184,6 +187,9 @@ Proof.
     destruct (is_send a); eexists; split; reflexivity.
   - apply existsb_nth in H. destruct H as (i & a & Hi & Ha).
     exists (AWait c i). cbn [Shutdown.step is_caller_step]. rewrite Hx, Ep, Hi, Ha, N.eqb_refl.
+    destruct (c_side x && mem c (okc s) && negb (is_ctx_arm a)); eexists; split; reflexivity.
+  - apply existsb_nth in H. destruct H as (i & a & Hi & Ha).
+    exists (ABox c i). cbn [Shutdown.step is_caller_step]. rewrite Hx, Ep, Hi, Ha, N.eqb_refl.
     eexists; split; reflexivity.
   - exists (AFront c). cbn [Shutdown.step is_caller_step]. rewrite Hx, Ep, H, N.eqb_refl.
     eexists; split; reflexivity.
@@ -196,7 +202,8 @@ Hypothesis g_guarded : guarded g = true.
 
 Lemma guarded_parts :
   In (ARecv "tr.serveDone") (enq_arms g) /\ In (ARecv "tr.serveDone") (wait_arms g) /\
-  In (ARecv "tr.serveDone") (fsend_arms g) /\ In (ARecv "tr.serveDone") (frecv_arms g).
+  In (ARecv "tr.serveDone") (fsend_arms g) /\ In (ARecv "tr.serveDone") (frecv_arms g) /\
+  In (ARecv "gone") (box_arms g).
 Proof.
   unfold guarded in g_guarded. repeat (apply andb_prop in g_guarded as [g_guarded ?]).
   repeat split; now apply has_arm_In.
@@ -206,13 +213,15 @@ Theorem no_stranded_caller s c x :
   serve s = SDone -> getc c (callers s) = Some x -> finished x = false ->
   caller_enabled g s c = true.
 Proof.
-  intros Hs Hx Hf. destruct guarded_parts as (He & Hw & _ & _).
+  intros Hs Hx Hf. destruct guarded_parts as (He & Hw & _ & _ & Hb).
   unfold caller_enabled. rewrite Hx. unfold finished in Hf.
   destruct (c_pc x) eqn:Ep; try discriminate.
   - reflexivity.
   - apply existsb_exists. exists (ARecv "tr.serveDone"). split; [assumption|].
     cbn. now rewrite Hs.
   - apply existsb_exists. exists (ARecv "tr.serveDone"). split; [assumption|].
+    cbn. now rewrite Hs.
+  - apply existsb_exists. exists (ARecv "gone"). split; [assumption|].
     cbn. now rewrite Hs.
   - now destruct (c_closeall x).
 Qed.
@@ -221,7 +230,7 @@ Qed.
 Theorem no_stranded_reader s :
   serve s = SDone -> reader s <> RExit -> reader_enabled g s = true.
 Proof.
-  intros Hs Hr. destruct guarded_parts as (_ & _ & Hfs & Hfr).
+  intros Hs Hr. destruct guarded_parts as (_ & _ & Hfs & Hfr & _).
   unfold reader_enabled. destruct (reader s) eqn:Er; try reflexivity; try congruence.
   - apply existsb_exists. exists (ARecv "tr.serveDone"). split; [assumption|].
     cbn. now rewrite Hs.
@@ -237,7 +246,7 @@ Theorem calls_return_bounded acts s s' c x :
   serve s = SDone -> exec s acts = Some s' -> getc c (callers s) = Some x ->
   exists x', getc c (callers s') = Some x' /\
     (finished x' = true \/ caller_enabled g s' c = true) /\
-    (4 <= count_own c acts -> finished x' = true)%nat.
+    (5 <= count_own c acts -> finished x' = true)%nat.
 Proof.
   intros Hs He Hx.
   destruct (bounded_own_steps acts s s' c x He Hx) as (x' & G1 & G2).
@@ -245,7 +254,7 @@ Proof.
   - destruct (finished x') eqn:Ef; [now left|right].
     eapply no_stranded_caller; try eassumption. eapply exec_done_stable; eassumption.
   - intros Hc. apply measure_zero_finished.
-    assert (measure x <= 4)%nat by (unfold measure; destruct (c_pc x), (c_closeall x); lia).
+    assert (measure x <= 5)%nat by (unfold measure; destruct (c_pc x), (c_closeall x); lia).
     lia.
 Qed.
 
@@ -261,7 +270,7 @@ Notation exec := (Shutdown.exec g).
 Definition reader_holds (s : state) (c : N) : Prop := reader s = RHave (Some c) true.
 
 Definition after_enqueue (p : cpc) : bool :=
-  match p with CWait | CRet | CFront => true | _ => false end.
+  match p with CWait | CBox | CRet | CFront => true | _ => false end.
 
 Record inv (s : state) : Prop := {
   (* serve's deferred loop has emptied the table before serveDone is closed *)
@@ -303,9 +312,11 @@ Proof.
             exists x, getc c (callers s') = Some x /\ after_enqueue (c_pc x) = true).
   { intros c Hc. destruct (Hq c Hc) as (x & G1 & G2).
     eapply caller_pc_monotone; eassumption. }
-  destruct a as [c0 k sd ca|c0|c0 i|c0 i|c0|c0|ok| | | | |c0 good|i|i| |];
+  destruct a as [c0 k sd ca sf|c0 i|c0|c0|c0 i|c0 i|c0|c0|ok| | | | |c0 good|i|i| |];
     cbn [Shutdown.step] in H.
   - break_step H. same_inv Hp Ht Hq'.
+  - break_step H; same_inv Hp Ht Hq'.
+  - injection H as <-. same_inv Hp Ht Hq.
   - break_step H; same_inv Hp Ht Hq'.
   - (* AEnq *)
     break_step H.
@@ -315,7 +326,7 @@ Proof.
       * now apply Hq'.
       * eexists. rewrite getc_setc_same. split; reflexivity.
     + same_inv Hp Ht Hq'.
-  - break_step H. same_inv Hp Ht Hq'.
+  - break_step H; same_inv Hp Ht Hq'.
   - break_step H. same_inv Hp Ht Hq'.
   - break_step H. same_inv Hp Ht Hq'.
   - (* ATake *)
@@ -436,12 +447,12 @@ End Invariants.
 (** Connection lost while idle; serve exits; then closeAll's tunnel.Close
     (context.TODO()) finds shutdownSignal still open, enqueues, and waits. *)
 Definition legacy_trace : list action :=
-  [ ANew 1 CtxNever false true; AReaderStop; AReadErrS; AFail; ACloseDone;
+  [ ANew 1 CtxNever false true false; AReaderStop; AReadErrS; AFail; ACloseDone;
     ACheck 1; AEnq 1 1 ].
 
 Definition stuck (s : state) (c : N) : Prop :=
   serve s = SDone /\ reader s = RExit /\
-  getc c (callers s) = Some (mkCaller CtxNever CWait false true) /\
+  getc c (callers s) = Some (mkCaller CtxNever CWait false true false) /\
   mem c (donec s) = false.
 
 Lemma stuck_step s a s' c :
@@ -455,6 +466,13 @@ Proof.
     destruct (getc c0 (callers s)) eqn:E; [discriminate|]. injection H as <-.
     cbn [serve reader callers donec set_caller]. repeat split; try assumption.
     rewrite getc_setc_other; [assumption|]. intros ->. congruence.
+  - (* ABox *)
+    destruct (N.eq_dec c0 c) as [->|Hne].
+    + rewrite Hx in H. cbn in H. discriminate.
+    + break_step H; cbn [serve reader callers donec set_caller]; repeat split; try assumption;
+        rewrite getc_setc_other by assumption; assumption.
+  - (* ADeliver *)
+    injection H as <-. cbn [serve reader callers donec]. repeat split; assumption.
   - (* ACheck *)
     destruct (N.eq_dec c0 c) as [->|Hne].
     + rewrite Hx in H. cbn in H. discriminate.
@@ -523,7 +541,7 @@ Qed.
 (** The reader too: after a failed write ended serve, a reply frame leaves
     the reader goroutine waiting for an answer that never comes. *)
 Definition legacy_reader_trace : list action :=
-  [ ANew 1 CtxOpen false false; ACheck 1; AEnq 1 1; ATake false; AFail; ACloseDone;
+  [ ANew 1 CtxOpen false false false; ACheck 1; AEnq 1 1; ATake false; AFail; ACloseDone;
     AFrame 7 true; ARSend 0 ].
 
 Theorem legacy_reader_stranded :
@@ -662,3 +680,89 @@ Proof.
 Qed.
 
 End ServeExit.
+
+(** * The side dial in the pinned tree's shape *)
+
+(** The dial call succeeds, then the control connection is lost before the
+    side connection is delivered. *)
+Definition legacy_side_trace : list action :=
+  [ ANew 1 CtxNever false false true; ACheck 1; AEnq 1 1; ATake true;
+    AFrame 1 true; ARSend 0; AFetch; ARDone; AWait 1 1;
+    AReaderStop; AReadErrS; AFail; ACloseDone ].
+
+Definition stuck_box (s : state) (c : N) : Prop :=
+  serve s = SDone /\
+  getc c (callers s) = Some (mkCaller CtxNever CBox false false true) /\
+  mem c (delivered s) = false.
+
+Lemma stuck_box_step s a s' c :
+  stuck_box s c -> a <> ADeliver c ->
+  Shutdown.step legacy_cfg s a = Some s' -> stuck_box s' c.
+Proof.
+  intros (Hs & Hx & Hd) Hna H. unfold stuck_box.
+  destruct a as [c0 k sd ca sf|c0 i|c0|c0|c0 i|c0 i|c0|c0|ok| | | | |c0 good|i|i| |];
+    cbn [Shutdown.step] in H.
+  all: try (rewrite Hs in H; discriminate).
+  - destruct (getc c0 (callers s)) eqn:E; [discriminate|]. injection H as <-.
+    cbn [serve callers delivered set_caller]. repeat split; try assumption.
+    rewrite getc_setc_other; [assumption|]. intros ->. congruence.
+  - (* ABox *)
+    destruct (N.eq_dec c0 c) as [->|Hne].
+    + rewrite Hx in H. cbn [c_pc legacy_cfg box_arms] in H.
+      destruct i as [|[|[|i]]]; cbn [nth_error] in H.
+      * cbn in H. discriminate.
+      * cbn in H. discriminate.
+      * cbn [caller_arm_ready] in H. cbn in H. rewrite Hd in H. discriminate.
+      * destruct i; discriminate.
+    + break_step H; cbn [serve callers delivered set_caller]; repeat split; try assumption;
+        rewrite getc_setc_other by assumption; assumption.
+  - (* ADeliver *)
+    injection H as <-. cbn [serve callers delivered]. repeat split; try assumption.
+    cbn [mem existsb]. destruct (c =? c0) eqn:E; [|exact Hd].
+    apply N.eqb_eq in E. subst. congruence.
+  - destruct (N.eq_dec c0 c) as [->|Hne].
+    + rewrite Hx in H. cbn in H. discriminate.
+    + break_step H; cbn [serve callers delivered set_caller]; repeat split; try assumption;
+        rewrite getc_setc_other by assumption; assumption.
+  - destruct (N.eq_dec c0 c) as [->|Hne].
+    + rewrite Hx in H. cbn in H. discriminate.
+    + break_step H; cbn [serve callers delivered set_caller]; repeat split; try assumption;
+        rewrite getc_setc_other by assumption; assumption.
+  - destruct (N.eq_dec c0 c) as [->|Hne].
+    + rewrite Hx in H. cbn in H. discriminate.
+    + break_step H; cbn [serve callers delivered set_caller]; repeat split; try assumption;
+        rewrite getc_setc_other by assumption; assumption.
+  - destruct (N.eq_dec c0 c) as [->|Hne].
+    + rewrite Hx in H. cbn in H. discriminate.
+    + break_step H; cbn [serve callers delivered set_caller]; repeat split; try assumption;
+        rewrite getc_setc_other by assumption; assumption.
+  - destruct (N.eq_dec c0 c) as [->|Hne].
+    + rewrite Hx in H. cbn in H. discriminate.
+    + break_step H; cbn [serve callers delivered set_caller]; repeat split; try assumption;
+        rewrite getc_setc_other by assumption; assumption.
+  - break_step H; cbn [serve callers delivered]; repeat split; assumption.
+  - break_step H; cbn [serve callers delivered]; repeat split; assumption.
+  - break_step H; cbn [serve callers delivered]; repeat split; assumption.
+  - break_step H; cbn [serve callers delivered]; repeat split; assumption.
+  - break_step H; cbn [serve callers delivered]; repeat split; assumption.
+Qed.
+
+(** In the pinned tree's configuration the side dial waits for ever once the
+    control connection is gone, unless the side connection still arrives. *)
+Theorem legacy_side_dial_stranded :
+  exists s, reachable legacy_cfg s /\ stuck_box s 1 /\
+    caller_enabled legacy_cfg s 1 = false /\
+    forall a s', a <> ADeliver 1 -> Shutdown.step legacy_cfg s a = Some s' ->
+      stuck_box s' 1 /\ caller_enabled legacy_cfg s' 1 = false.
+Proof.
+  destruct (Shutdown.exec legacy_cfg init legacy_side_trace) as [s0|] eqn:E;
+    [|vm_compute in E; discriminate].
+  exists s0. split; [now exists legacy_side_trace|].
+  assert (Hst : stuck_box s0 1).
+  { vm_compute in E. injection E as <-. repeat split. }
+  assert (Hne : forall s, stuck_box s 1 -> caller_enabled legacy_cfg s 1 = false).
+  { intros s (Hs & Hx & Hd). unfold caller_enabled. rewrite Hx. cbn. now rewrite Hd. }
+  split; [exact Hst|]. split; [now apply Hne|].
+  intros a s' Ha Hstep. pose proof (stuck_box_step s0 a s' 1 Hst Ha Hstep) as H1.
+  split; [exact H1|now apply Hne].
+Qed.
